@@ -41,14 +41,14 @@ func removesRemoteNode(remote *fsmodel.Node, m *fsmodel.Model, op *fsmodel.Op) b
 
 // Gen draws a case.
 func Gen(rt *rapid.T) Case {
-	remote := fsmodel.GenTree(rt, 10, false)
+	remote := fsmodel.GenTree(rt, 10, true)
 	max := 25
 	if hx.Thorough() {
 		max = 50
 	}
 	c := Case{Remote: fsmodel.Flatten(remote), Disk: hx.Chance(rt, 8, "disk")}
-	c.Ops = fsmodel.GenHistory(rt, fsmodel.GenCfg{MinOps: 1, MaxOps: max, Views: true, NoisyPaths: true, Initial: remote,
-		DropFailingMutations: true,
+	c.Ops = fsmodel.GenHistory(rt, fsmodel.GenCfg{MinOps: 1, MaxOps: max, Views: true, OddNames: true, NoisyPaths: true, Initial: remote,
+		DropFailingMutations: true, KeepFailingPct: 35,
 		Weights:              map[string]int{"Remove": 10, "RemoveAll": 8, "ReadDir": 10, "IsExist": 6, "IsDir": 5, "IsFile": 5},
 		Hook: func(m *fsmodel.Model, op *fsmodel.Op) bool {
 			if hx.Excluded(ExRemoveRemote) && removesRemoteNode(remote, m, op) {
@@ -104,21 +104,39 @@ func run(c Case) hx.Verdict {
 	mutated := map[string]bool{} // absolute paths (joined) whose presence differs between remote and merged model
 	for i, op := range c.Ops {
 		nviews := len(m.Views)
+		refused := false
 		if fsmodel.Mutating(op.Op) {
-			// only operations that are valid on the merged view are in the domain
-			probe := &fsmodel.Model{Root: m.Root.Clone(), Views: m.Views, Opt: m.Opt}
-			if e := probe.Apply(op); e.Skip || e.Err != fsmodel.No {
+			// operations that are valid on the merged view are applied to the model; operations the
+			// model refuses (remove of a non-empty directory, write below a file, ...) are in the domain
+			// only when the cache refuses them too: then nothing it shows may change
+			probe := &fsmodel.Model{Root: m.Root.Clone(), Views: append([][]string{}, m.Views...), Opt: m.Opt}
+			pe := probe.Apply(op)
+			if pe.Skip || pe.Err == fsmodel.Either {
+				v.Count("skipped_ops", 1)
+				continue
+			}
+			refused = pe.Err == fsmodel.Yes
+		}
+		var e fsmodel.Expect
+		if !refused {
+			e = m.Apply(op)
+			if e.Skip {
 				v.Count("skipped_ops", 1)
 				continue
 			}
 		}
-		e := m.Apply(op)
-		if e.Skip {
-			v.Count("skipped_ops", 1)
-			continue
-		}
 		o := b.Run(op)
-		if d := fsmodel.Compare(op, e, o); d != "" {
+		if refused {
+			if o.Panic != "" {
+				return fail(i, "result", fmt.Sprintf("%s panicked: %s", op, o.Panic))
+			}
+			if o.Err == nil {
+				// the cache is more permissive than the tree model here; the statement fixes nothing
+				v.Label("cache-accepted-op-the-model-refuses")
+				return v
+			}
+			v.Label("refused-mutation")
+		} else if d := fsmodel.Compare(op, e, o); d != "" {
 			return fail(i, "result", d)
 		}
 		if len(m.Views) > nviews && b.Recvs[len(b.Recvs)-1] == nil {
